@@ -68,6 +68,23 @@ class FG:
             defined = self.stmt(indent, defined, depth, in_loop)
         return defined
 
+    def inner_loop(self, indent, defined, depth):
+        """with the loop_else flag: a loop nested directly in a loop body, so that its else clause can address the outer loop"""
+        if self.flag("loop_else") and self.b(1, 2):
+            it = self.c(["j", "k"])
+            self.lines.append("%sfor %s in range(%d):" % ("    " * indent, it, self.i(1, 2)))
+            self.block(indent + 1, defined | {it}, max(depth - 1, 0), True)
+            self.loop_else(indent, defined, max(depth, 1), True)
+
+    def loop_else(self, indent, defined, depth, in_loop):
+        """optional else clause of a loop; a break/continue in it belongs to the ENCLOSING loop (in_loop is the outer one's)"""
+        if self.flag("loop_else") and self.b(2, 3):
+            self.lines.append("%selse:" % ("    " * indent))
+            if in_loop and self.flag("break_continue") and self.b(3, 4):
+                self.lines.append("%s    if %s:" % ("    " * indent, self.cond(defined)))
+                self.lines.append("%s        %s" % ("    " * indent, self.c(["break", "continue"])))
+            self.block(indent + 1, set(defined), depth - 1, in_loop)
+
     def stmt(self, indent, defined, depth, in_loop):
         r = self.i(0, 13)
         pad = "    " * indent
@@ -91,6 +108,8 @@ class FG:
             it = self.c(["i", "j", "k"])
             self.lines.append("%sfor %s in range(%d):" % (pad, it, self.i(1, 3)))
             self.block(indent + 1, defined | {it}, depth - 1, True)
+            self.inner_loop(indent + 1, defined | {it}, depth - 1)
+            self.loop_else(indent, defined, depth, in_loop)
             return defined  # the loop may run zero times for the purpose of definedness? range>=1 but keep conservative
         if r == 8 and self.flag("while") and defined:
             cnt = "n%d" % self.counter
@@ -99,6 +118,8 @@ class FG:
             self.lines.append("%swhile %s > 0:" % (pad, cnt))
             self.lines.append("%s    %s -= 1" % (pad, cnt))
             self.block(indent + 1, defined | {cnt}, depth - 1, True)
+            self.inner_loop(indent + 1, defined | {cnt}, depth - 1)
+            self.loop_else(indent, defined | {cnt}, depth, in_loop)
             return defined | {cnt}
         if r == 9 and self.flag("global_write"):
             self.lines.append("%sG = G + %s" % (pad, self.atom(defined)))
@@ -169,7 +190,7 @@ class FG:
         }
 
 
-FFLAGS = ["method", "comprehension", "comp_shadow", "while", "global_write", "break_continue", "early_return", "print_stmt", "docstring"]
+FFLAGS = ["method", "comprehension", "comp_shadow", "while", "global_write", "break_continue", "early_return", "print_stmt", "docstring", "loop_else"]
 
 
 @st.composite
